@@ -64,6 +64,15 @@ type e2eRig struct {
 	outDir, cacheDir, sentLogDir, stageDir, finalDir, recvLog string
 	conf                                                      e2eConf
 
+	// gate: every request of the sender holds it shared for its whole duration; a restart of
+	// the receiver takes it exclusively, so that the old instance dies between two requests
+	// (an abandoned in-process instance would otherwise go on serving the request in flight
+	// next to its successor, which a dead process cannot do). beforeRestart, when set, runs
+	// under the exclusive gate before the old instance is abandoned (used to wait until its
+	// background goroutines are idle).
+	gate          sync.RWMutex
+	beforeRestart func(old *stage.Stage)
+
 	mu        sync.Mutex
 	events    []string
 	txFault   []e2eFault
@@ -144,6 +153,11 @@ func (r *e2eRig) startReceiver() {
 // restartReceiver abandons the running Stage (process death) and recovers a new one on the
 // same directories.
 func (r *e2eRig) restartReceiver() {
+	r.gate.Lock()
+	defer r.gate.Unlock()
+	if r.beforeRestart != nil {
+		r.beforeRestart(r.stageNow())
+	}
 	r.mu.Lock()
 	old := r.st
 	r.st = nil
@@ -185,6 +199,8 @@ func partsDesc(ps []sts.Binned) string {
 }
 
 func (r *e2eRig) transmit(pl sts.Payload) (int, error) {
+	r.gate.RLock()
+	defer r.gate.RUnlock()
 	parts := pl.GetParts()
 	desc := partsDesc(parts)
 	f := r.nextFault(&r.txFault)
@@ -246,6 +262,8 @@ type metaPart struct{ sts.Binned }
 func (m metaPart) GetSlice() (int64, int64) { b, n := m.Binned.GetSlice(); return b, b + n }
 
 func (r *e2eRig) recoverTx(pl sts.Payload) (int, error) {
+	r.gate.RLock()
+	defer r.gate.RUnlock()
 	parts := pl.GetParts()
 	if f := r.nextFault(&r.rcFault); f != nil {
 		r.event("rc %s -> err", partsDesc(parts))
@@ -276,6 +294,8 @@ func (c *e2ePolled) Failed() bool   { return c.code == sts.ConfirmFailed }
 func (c *e2ePolled) Received() bool { return c.code == sts.ConfirmPassed }
 
 func (r *e2eRig) validate(sent []sts.Pollable) ([]sts.Polled, error) {
+	r.gate.RLock()
+	defer r.gate.RUnlock()
 	var names []string
 	for _, f := range sent {
 		names = append(names, esc(f.GetName()))
@@ -292,7 +312,13 @@ func (r *e2eRig) validate(sent []sts.Pollable) ([]sts.Polled, error) {
 	var out []sts.Polled
 	var verdicts []string
 	for _, f := range sent {
+		// the verdict is read and recorded ("pollv") under the event mutex: an observer that also
+		// records the receiver's own steps (verifhook points) then sees them in an order that is
+		// consistent with what this read saw
+		r.mu.Lock()
 		code := st.GetFileStatus(f.GetName(), time.Unix(f.GetStarted().Unix(), 0))
+		r.events = append(r.events, fmt.Sprintf("pollv %s=%d", esc(f.GetName()), code))
+		r.mu.Unlock()
 		out = append(out, &e2ePolled{Pollable: f, code: code})
 		verdicts = append(verdicts, fmt.Sprintf("%s=%d", esc(f.GetName()), code))
 	}
@@ -301,6 +327,8 @@ func (r *e2eRig) validate(sent []sts.Pollable) ([]sts.Polled, error) {
 }
 
 func (r *e2eRig) partials() ([]*sts.Partial, error) {
+	r.gate.RLock()
+	defer r.gate.RUnlock()
 	if f := r.nextFault(&r.partFault); f != nil {
 		r.event("partials -> err")
 		return nil, fmt.Errorf("partials request failed")
